@@ -347,6 +347,9 @@ pub struct Inner {
     free_ports: Vec<u16>,
     chans: u64,
     pub peers: Vec<Option<Box<dyn Peer>>>,
+    /// endpoint of each peer; several peers may share one (a client endpoint reused for a later transfer):
+    /// datagrams go to the one started last
+    pub peer_eps: Vec<EpId>,
     pub monitors: Vec<Box<dyn Monitor>>,
     pub choices: Choices,
     pub cfg: FaultCfg,
@@ -729,7 +732,13 @@ impl Inner {
     }
 
     pub fn peer_ep(&self, p: usize) -> EpId {
-        self.eps.iter().position(|e| e.peer == Some(p)).expect("peer endpoint")
+        self.peer_eps[p]
+    }
+
+    fn start_peer_now(&mut self, p: usize) {
+        let ep = self.peer_eps[p];
+        self.eps[ep].peer = Some(p);
+        self.call_peer(p, |peer, cx| peer.start(cx));
     }
 
     /// `None` while that peer's own handler is running (it is taken out of the table then).
@@ -857,6 +866,7 @@ impl World {
                 free_ports: Vec::new(),
                 chans: 0,
                 peers: Vec::new(),
+                peer_eps: Vec::new(),
                 monitors: Vec::new(),
                 choices,
                 cfg,
@@ -889,13 +899,25 @@ impl World {
         let p = g.peers.len();
         g.peers.push(Some(peer));
         let ep = g.open_endpoint(Actor::Peer(p), SocketAddr::new(loopback(v6), port), Some(p)).expect("peer endpoint");
+        g.peer_eps.push(ep);
+        let a = g.eps[ep].addr;
+        (p, a)
+    }
+
+    /// Adds a peer that reuses the endpoint of peer `k` (it takes the endpoint over when it starts).
+    pub fn add_peer_on(&self, peer: Box<dyn Peer>, k: usize) -> (usize, SocketAddr) {
+        let mut g = self.lock();
+        let p = g.peers.len();
+        g.peers.push(Some(peer));
+        let ep = g.peer_eps[k];
+        g.peer_eps.push(ep);
         let a = g.eps[ep].addr;
         (p, a)
     }
 
     pub fn start_peer(&self, p: usize) {
         let mut g = self.lock();
-        g.call_peer(p, |peer, cx| peer.start(cx));
+        g.start_peer_now(p);
     }
 
     /// Starts a peer at a later virtual time (token u64::MAX is delivered to `on_timer`).
@@ -906,6 +928,14 @@ impl World {
     }
 
     pub fn add_monitor(&self, m: Box<dyn Monitor>) {
+        let mut g = self.lock();
+        // a monitor added after the first spawn would miss the events that attribute tasks
+        assert!(g.tasks.is_empty(), "monitor added after tasks were spawned");
+        g.monitors.push(m);
+    }
+
+    /// For monitors that only judge the end state (they need no task attribution).
+    pub fn add_late_monitor(&self, m: Box<dyn Monitor>) {
         self.lock().monitors.push(m);
     }
 
@@ -974,7 +1004,7 @@ impl World {
                 }
                 EvKind::PeerTimer { peer, token } => {
                     if token == u64::MAX {
-                        g.call_peer(peer, |p, cx| p.start(cx));
+                        g.start_peer_now(peer);
                     } else {
                         g.call_peer(peer, |p, cx| p.on_timer(cx, token));
                     }
